@@ -79,24 +79,15 @@ def handleSelf (rest : String) : String :=
     | _, _ => "bad-op"
 
 /-- `LALGO <cfg> ; <levels (labels ignored)>`: the labels of the deterministic algorithm for the
-whole movie, `ok 0,1|0,2,3|...` (`none` if a step is oversize) -/
+whole movie (`algoMovie`, Model/LinkerAlgo.lean), `ok 0,1|0,2,3|...` (`none` if a step is oversize) -/
 def handleAlgo (rest : String) : String :=
   match splitKeep rest ";" with
   | [] => "bad-op"
   | c :: ls =>
     match parseCfg? c, parseAll parseLevel? ls with
     | some cfg, some (l0 :: levels) =>
-      let lab0 := List.range l0.dsts.length
-      let st0 := nextState initCfg { srcs := [], used := [] } l0.t l0.dsts lab0
-      let (_, out, bad) := levels.foldl (fun (acc : State × List (List Nat) × Bool) l =>
-        let (st, out, bad) := acc
-        if bad then acc else
-        if oversizeB cfg (stepGroups cfg st l.t l.dsts) then (st, out, true) else
-        match algoLabels cfg st l.t l.dsts with
-        | none => (st, out, true)
-        | some labels => (nextState cfg st l.t l.dsts labels, out ++ [labels], false))
-        (st0, [lab0], false)
-      if bad then "none" else "ok " ++ joinWith "|" (out.map showNatList)
+      let r := algoMovie cfg ((l0 :: levels).map (fun l => (l.t, l.dsts)))
+      if r.2 then "none" else "ok " ++ joinWith "|" (r.1.map showNatList)
     | _, _ => "bad-op"
 
 def handlers : List (String × (String → String)) :=
